@@ -126,12 +126,15 @@ QRef(q, psi, gs) ==
     [] q.kind = "expec"  -> Expec(psi, OpM(q.op), q.where, N)
     [] q.kind = "marg"   -> Marginal(psi, q.where, q.fix, N)
     [] q.kind = "sample" -> Support(psi)
+    [] q.kind = "cond"   -> Marginal(psi, q.where, q.fix, N)
 
 Region(q) == CASE q.kind = "ptr" -> SetOfSeq(q.keep)
                [] q.kind = "expec" -> SetOfSeq(q.where)
                [] q.kind = "marg" -> SetOfSeq(q.where) \cup {q.fix[i][1] : i \in DOMAIN q.fix}
                [] OTHER -> 0..N - 1
 \* which memo entry a query goes through (exact.py: keys of _storage / _sampled_conditionals)
+RECURSIVE ValCode(_, _, _)
+ValCode(fix, i, acc) == IF i > Len(fix) THEN acc ELSE ValCode(fix, i + 1, 2 * acc + fix[i][2])   \* values, qubits ascending
 QKey(q) ==
   CASE q.kind = "amp"    -> <<"psi-amp", 0>>
     [] q.kind = "dense"  -> <<"psi-dense", 0>>
@@ -139,6 +142,10 @@ QKey(q) ==
     [] q.kind = "expec"  -> <<"rdm", Mask(Region(q))>>
     [] q.kind = "marg"   -> IF Region(q) = 0..N - 1 THEN <<"psi-marg", 0>> ELSE <<"rdm-marg", Mask(Region(q))>>
     [] q.kind = "sample" -> <<"cond", 0>>
+    \* one conditional of Circuit.sample: _sampled_conditionals[(where, tuple(sorted(result.items())))].  The key must
+    \* say WHICH qubits were fixed; deviation "cond-key-values-only": only their values (self-test MC_dev_condkey)
+    [] q.kind = "cond"   -> <<"cond", 10000 * (q.where[1] + 1) + 100 * (IF "cond-key-values-only" \in Deviations THEN 0 ELSE Mask({q.fix[i][1] : i \in DOMAIN q.fix}))
+                                      + ValCode(q.fix, 1, 1)>>
     [] q.kind = "uni"    -> <<"none", 0>>
     [] OTHER             -> <<"none", 0>>      \* kinds that exist only in the replays (sampleprob, gbg)
 \* the value the implementation returns from the snapshot e = [ver, sv (= Run(N, tn)), tn, gs]
@@ -154,6 +161,7 @@ QImpl(q, e) ==
     [] q.kind = "marg"   -> LET st == IF Region(q) = 0..N - 1 THEN e.sv ELSE ConeState(e, Region(q)) IN
                             IF st = <<>> THEN <<>> ELSE Marginal(st, q.where, q.fix, N)
     [] q.kind = "sample" -> Support(e.sv)
+    [] q.kind = "cond"   -> Marginal(e.sv, e.q.where, e.q.fix, N)       \* the stored conditional is the one of the FIRST query with this key
 
 (* --------------------- CircuitPermMPS bookkeeping -------------------------- *)
 IndexOf(s, x) == (CHOOSE i \in DOMAIN s : s[i] = x) - 1
@@ -313,7 +321,7 @@ QueryExact(q) ==
          store0 == IF init THEN EmptyStore ELSE store
          key    == QKey(q)
          cached == key[1] # "none" /\ key \in DOMAIN store0
-         e      == IF cached THEN store0[key] ELSE [ver |-> ver, sv |-> tnv, tn |-> tn, gs |-> gates]
+         e      == IF cached THEN store0[key] ELSE [ver |-> ver, sv |-> tnv, tn |-> tn, gs |-> gates, q |-> q]
      IN
      /\ sng' = IF key[1] = "none" THEN sng ELSE Len(gates)
      /\ mss' = IF key[1] # "none" /\ init THEN TRUE ELSE mss
@@ -327,6 +335,7 @@ QueryExact(q) ==
      /\ qok' = IF Record THEN TRUE
                ELSE IF q.kind = "sample" /\ ~(init \/ mss) THEN FALSE      \* AttributeError: the query does not return
                ELSE IF q.kind = "uni" THEN (e.tn = gates \/ Uni(N, e.tn) = Uni(N, gates))
+               ELSE IF q.kind = "cond" THEN (e.sv = reg /\ e.q = q) \/ QImpl(q, e) = QRef(q, reg, gates)
                ELSE IF e.sv = reg /\ (q.kind \in {"amp", "dense", "sample"} \/ Region(q) = 0..N - 1 \/ ConeAll(e, Region(q))) THEN TRUE
                ELSE QImpl(q, e) = QRef(q, reg, gates)
   /\ UNCHANGED <<gates, reg, tn, tnv, ver, perm, phys, ctr, cell, info, other>> /\ rej' = FALSE
@@ -336,18 +345,23 @@ QueryExact(q) ==
 Sound == info[cell] = 0 - 1 \/ ctr = 0 - 1 \/ info[cell] = ctr
 ViaCopy(q) == "viacopy" \in DOMAIN q /\ q.viacopy
 QueryPerm(q) ==
-  /\ PermC /\ q.kind \in {"dense", "expec", "amp"}
+  /\ PermC /\ q.kind \in {"dense", "expec", "amp", "sample"}
   /\ LET pw == IF q.kind = "expec" THEN [i \in 1..Len(q.where) |-> IndexOf(perm, q.where[i])] ELSE <<0>>
          w0 == IF Len(pw) = 1 THEN pw[1] ELSE Min(pw[1], pw[2]) IN
      /\ qok' = IF Record THEN TRUE
                ELSE IF q.kind = "dense" THEN Dense(Logical(phys, perm), N, q.rev) = QRef(q, reg, gates)
                ELSE IF q.kind = "amp" THEN Amp(Logical(phys, perm), q.b) = QRef(q, reg, gates)
+               ELSE IF q.kind = "sample" THEN Support(Logical(phys, perm)) = QRef(q, reg, gates)
                ELSE Sound /\ Expec(phys, OpM(q.op), pw, N) = QRef(q, reg, gates)
      /\ ctr' = IF q.kind = "expec" /\ ~ViaCopy(q) THEN w0 ELSE ctr
      \* (fixed in /repo: a converted copy gets a private copy of the record; before, the object's record was
      \*  overwritten - deviation "expec-copy-info", self-test MC_dev_expeccopy)
+     \* MatrixProductState.sample canonicalises a copy; handing it the object's info record would make the record
+     \* say (0, 0) for a network whose centre did not move (deviation "sample-shared-info", self-test MC_dev_sampleinfo)
      /\ info' = IF q.kind = "expec" /\ (~ViaCopy(q) \/ "expec-copy-info" \in Deviations)
-                THEN [info EXCEPT ![cell] = w0] ELSE info
+                THEN [info EXCEPT ![cell] = w0]
+                ELSE IF q.kind = "sample" /\ "sample-shared-info" \in Deviations THEN [info EXCEPT ![cell] = 0]
+                ELSE info
   /\ UNCHANGED <<gates, reg, tn, tnv, ver, perm, phys, cell, other, store, sng, mss, fresh>> /\ rej' = FALSE
 Query(q) == (QueryExact(q) \/ QueryPerm(q)) /\ Bump([op |-> "query", q |-> q])
 
